@@ -30,14 +30,20 @@ Proof.
   rewrite IH by (intros y Hy; apply H; right; exact Hy). destruct b; reflexivity.
 Qed.
 
+Lemma req_erase c e p sz ff : c_statreq c e = None \/ ff_stat ff = false -> req c e p sz ff = req c e p sz no_ff.
+Proof. intros [H|H]; unfold req; rewrite H; reflexivity. Qed.
+
 Lemma ext_events_calls_fault c p sz ff : forall es checked,
+  (forall e, In e es -> c_statreq c e = None \/ ff_stat ff = false) ->
   calls (ext_events c p sz ff es checked) =
   if ff_open ff || ff_fstat ff then [] else calls (ext_events c p sz no_ff es checked).
 Proof.
-  induction es as [|e es IH]; intros checked; cbn [ext_events calls]; [destruct (_ || _); reflexivity|].
-  destruct (c_required c e p); [|apply IH].
+  induction es as [|e es IH]; intros checked HS; cbn [ext_events calls]; [destruct (_ || _); reflexivity|].
+  rewrite <- (req_erase c e p sz ff) by (apply HS; left; reflexivity).
+  assert (HS' : forall e', In e' es -> c_statreq c e' = None \/ ff_stat ff = false) by (intros e' H'; apply HS; right; exact H').
+  destruct (req c e p sz ff); [|apply IH; exact HS'].
   destruct ((0 <? c_max_size c)%Z && negb checked && (c_max_size c <? sz)%Z); [destruct (_ || _); reflexivity|].
-  rewrite !calls_app, IH. cbn [ff_open ff_fstat no_ff].
+  rewrite !calls_app, IH by exact HS'. cbn [ff_open ff_fstat no_ff].
   destruct (ff_open ff); cbn [orb calls app]; [reflexivity|]. destruct (ff_fstat ff); reflexivity.
 Qed.
 
@@ -45,8 +51,8 @@ Lemma ext_events_call_paths c p sz ff : forall es checked ep,
   In ep (calls (ext_events c p sz ff es checked)) -> snd ep = p.
 Proof.
   induction es as [|e es IH]; intros checked ep; cbn [ext_events calls]; [intros []|].
-  destruct (c_required c e p); [|apply IH].
-  destruct ((0 <? c_max_size c)%Z && negb checked && (c_max_size c <? sz)%Z); [intros []|].
+  destruct (req c e p sz ff); [|apply IH].
+  destruct ((0 <? c_max_size c)%Z && negb checked && (ff_stat ff || (c_max_size c <? sz)%Z)); [intros []|].
   rewrite calls_app. intros H. apply in_app_or in H as [H|H]; [|eapply IH; exact H].
   destruct (ff_open ff); [destruct H|]. destruct (ff_fstat ff); [destruct H|]. destruct H as [<-|[]]. reflexivity.
 Qed.
@@ -167,6 +173,12 @@ Proof.
     unfold sched_calls. cbn [erase_faults schedule flat_map call_events calls]. rewrite !app_nil_r.
     destruct (kind_accepted c k && _); [|reflexivity].
     cbn [calls]. rewrite ext_events_calls_fault.
+    2:{ intros e He. cbn [tree_quiet] in Q. destruct (ff_stat ff); [|right; reflexivity]. left.
+        cbn [andb] in Q. apply negb_true_iff, orb_false_iff in Q as [_ Q]. unfold stat_used in Q.
+        destruct (c_statreq c e) eqn:E; [|reflexivity]. exfalso.
+        assert (X : existsb (fun e0 => match c_statreq c e0 with Some _ => true | None => false end) (c_exts c) = true)
+          by (apply existsb_exists; exists e; split; [exact He|rewrite E; reflexivity]).
+        congruence. }
     rewrite (filter_const _ (negb (ff_open ff) && negb (ff_fstat ff))).
     + destruct (ff_open ff), (ff_fstat ff); reflexivity.
     + intros ep Hin. apply ext_events_call_paths in Hin. rewrite Hin, spath_mpath by exact ND.
@@ -236,7 +248,7 @@ Qed.
 Lemma tree_quiet_erase c : forall nd, tree_quiet c (erase_faults nd) = true.
 Proof.
   induction nd as [n k s d ff|n ch df IH] using node_ind2.
-  - cbn. rewrite andb_false_r. reflexivity.
+  - reflexivity.
   - cbn [erase_faults]. rewrite tree_quiet_dir. apply andb_true_iff. split.
     + unfold gi_child_ok. rewrite find_child_erase. destruct (find_child GI ch) as [[]|]; cbn; rewrite ?orb_true_r; reflexivity.
     + induction ch as [|c1 ch IHc]; [reflexivity|]. inversion IH; subst. cbn [map forallb]. rewrite H1, IHc by assumption. reflexivity.
